@@ -59,6 +59,8 @@ Forms == {
   F("band", "BOOL", "BOOL", "BOOL"), F("bor", "BOOL", "BOOL", "BOOL"), F("bne", "BOOL", "LSTR", "STRING"),
   F("bnmatch", "BOOL", "STRING", ""), F("brge", "BOOL", "RTIME", "RTIME"), F("bfle", "BOOL", "FLOAT", "FLOAT"),
   F("btgt", "BOOL", "TIME", "TIME"), F("bteq", "BOOL", "TIME", ""),
+  F("klit1", "BACKEND", "", ""), F("klit2", "BACKEND", "", ""), F("kdir", "BACKEND", "", ""), F("kvar", "BACKEND", "BACKEND", ""),
+  F("kreq", "BACKEND", "", ""), F("bkeq", "BOOL", "BACKEND", ""), F("bmatchx", "BOOL", "STRING", "REGEX"),
   F("blit", "BOOL", "", ""), F("bvar", "BOOL", "BOOL", ""), F("bnot", "BOOL", "BOOL", ""), F("blt", "BOOL", "INTEGER", "INTEGER"),
   F("bneglt", "BOOL", "INTEGER", ""), F("bmatch", "BOOL", "STRING", ""), F("beq", "BOOL", "LSTR", "STRING"),
   F("bfgt", "BOOL", "FLOAT", ""), F("bfneg", "BOOL", "FLOAT", ""), F("brneg", "BOOL", "RTIME", "") }
@@ -66,7 +68,7 @@ Forms == {
 E(f, x, y) == [f |-> f, x |-> x, y |-> y]
 NoE == E("", "", "")
 \* f2 does not call itself
-FormsIn(sub) == IF sub \in {"f2", "g1"} THEN {g \in Forms : g.f # "sfcall"} ELSE Forms
+FormsIn(sub) == IF sub \in {"f2", "g1", "p2"} THEN {g \in Forms : g.f # "sfcall"} ELSE Forms
 ExprsOf(scope, sub, ty) ==
   UNION {{E(g.f, x, y) : x \in Opd(scope, sub, g.xs), y \in Opd(scope, sub, g.ys)} : g \in {h \in FormsIn(sub) : h.ty = ty}}
 
@@ -75,6 +77,8 @@ AssignOps(ty) == CASE ty \in {"INTEGER", "FLOAT"} -> {"=", "+=", "-=", "*="}
                    [] ty = "STRING" -> {"=", "+="}
                    [] ty = "BOOL" -> {"=", "&&=", "||="}
                    [] ty = "TIME" -> {"=", "+=", "-="}
+                   [] ty = "BACKEND" -> {"="}
+                   [] OTHER -> {}       \* REGEX, IP, ACL parameters are read, never assigned
 BitOps == {"|=", "&=", "^=", "<<=", ">>=", "rol=", "ror="}
 
 Mk(k, t, op, e, fn, args) == [k |-> k, t |-> t, op |-> op, e |-> e, fn |-> fn, args |-> args]
@@ -84,7 +88,7 @@ Mk(k, t, op, e, fn, args) == [k |-> k, t |-> t, op |-> op, e |-> e, fn |-> fn, a
 \* more than a few hundred candidates.
 H(k, t, op, fn) == [k |-> k, t |-> t, op |-> op, fn |-> fn]
 Kinds == {"set", "other", "call", "if"}
-Targets(scope, sub) == Visible(sub) \cup HdrTargets(scope)
+Targets(scope, sub) == Visible(sub) \cup HdrTargets(scope) \cup {"req.backend"}
 Heads(scope, sub, kind) ==
   CASE kind = "set" ->
          UNION {{H("set", t, op, "") : op \in AssignOps(Ty(t)) \cup (IF Ty(t) = "INTEGER" THEN BitOps ELSE {})} : t \in Targets(scope, sub)}
@@ -95,9 +99,25 @@ Heads(scope, sub, kind) ==
          (IF sub = "main" THEN {H("call", "", "", "f1"), H("call", "", "", "g0")} ELSE {})
          \cup (IF sub \in {"main", "f1", "g0"} THEN {H("call", "", "", "f2")} ELSE {})
          \cup (IF sub = "g0" THEN {H("call", "", "", "g1")} ELSE {})
+         \cup (IF sub = "main" THEN {H("call", "", "", "p1")} ELSE {})
+         \cup (IF sub \in {"main", "p1"} THEN {H("call", "", "", "p2")} ELSE {})
     [] kind = "if" -> {H("if", "", "", "")}
 ArgS(scope, sub) == {x \in ExprsOf(scope, sub, "STRING") : x.f \in {"slit", "svar", "scatlit", "stplus"}}
 ArgI(scope, sub) == {x \in ExprsOf(scope, sub, "INTEGER") : x.f \in {"ilit", "ivar", "ineg"}}
+\* arguments of p1 / p2: per parameter a literal (two different ones per type) or a variable of the caller
+ParamTypes == <<"STRING", "REGEX", "BACKEND", "BOOL", "FLOAT", "TIME", "RTIME", "INTEGER", "IP", "ACL">>
+LitA == <<"slit", "xlitA", "klit1", "blit", "flit", "tlit", "rlit", "ilit", "alitA", "llit1">>
+LitB == <<"slitB", "xlitB", "klit2", "blitB", "flitB", "tlitB", "rlitB", "ilitB", "alitB", "llit2">>
+VarF == <<"svar", "xvar", "kvar", "bvar", "fvar", "tvar", "rvar", "ivar", "avar", "lvar">>
+MainVar == <<"var.s", "var.re", "var.be", "var.b", "var.f", "var.tm", "var.r", "var.i", "var.ip", "">>
+PVar == <<"var.p", "var.x", "var.k", "var.o", "var.g", "var.h", "var.d", "var.q", "var.a", "var.l">>
+ArgAt(sub, i, mode) == LET v == IF sub = "main" THEN MainVar[i] ELSE PVar[i] IN
+                       CASE mode = "V" /\ v # "" -> E(VarF[i], v, "")
+                         [] mode = "B" -> E(LitB[i], "", "")
+                         [] OTHER -> E(LitA[i], "", "")
+ArgPatterns == {[i \in 1..10 |-> "A"], [i \in 1..10 |-> "B"], [i \in 1..10 |-> "V"],
+                [i \in 1..10 |-> IF i % 2 = 1 THEN "A" ELSE "V"], [i \in 1..10 |-> IF i % 2 = 1 THEN "V" ELSE "B"]}
+PArgs(sub) == {[i \in 1..10 |-> ArgAt(sub, i, pat[i])] : pat \in ArgPatterns}
 \* bodies: [e, args]
 B(e, args) == [e |-> e, args |-> args]
 Bodies(scope, sub, h) ==
@@ -110,6 +130,7 @@ Bodies(scope, sub, h) ==
     [] h.k = "log" -> {B(e, <<>>) : e \in ExprsOf(scope, sub, "STRING")}
     [] h.k = "call" -> IF h.fn = "f1" THEN {B(NoE, <<a, b>>) : a \in ArgS(scope, sub), b \in ArgI(scope, sub)}
                        ELSE IF h.fn = "f2" THEN {B(NoE, <<a>>) : a \in ArgS(scope, sub)}
+                       ELSE IF h.fn \in {"p1", "p2"} THEN {B(NoE, a) : a \in PArgs(sub)}
                        ELSE {B(NoE, <<>>)}
     [] h.k = "if" -> {B(e, <<>>) : e \in ExprsOf(scope, sub, "BOOL")}
 Stmt(h, b) == Mk(h.k, h.t, h.op, b.e, h.fn, b.args)
@@ -119,6 +140,7 @@ StmtsOf(scope, sub, kind) == UNION {{Stmt(h, b) : b \in Bodies(scope, sub, h)} :
 Carriers(scope) ==
   {Mk("call", "", "", NoE, "f1", <<a, b>>) : a \in {E("svar", "var.s", ""), E("svar", "req.http.H1", ""), E("slit", "", "")},
                                             b \in {E("ivar", "var.i", ""), E("ineg", "var.i", "")}}
+  \cup {Mk("call", "", "", NoE, "p1", a) : a \in {[i \in 1..10 |-> ArgAt("main", i, "A")], [i \in 1..10 |-> ArgAt("main", i, "V")]}}
   \cup {Mk("call", "", "", NoE, "g0", <<>>),
         Mk("call", "", "", NoE, "f2", <<E("svar", "var.s", "")>>),
         Mk("set", "var.t", "=", E("sfcall", "var.s", ""), "", <<>>),
